@@ -336,6 +336,14 @@ func Variants() []Variant {
 					}
 					return b
 				}})
+		case "fixedlength2":
+			// two-row envelopes: the first line of an envelope stays in linesBuf (aliasing the
+			// bufio buffer unless copied) while the second one is read
+			rows2 := `{"parser_settings": { "version": "omni.2.1", "file_format_type": "fixedlength2" }, "file_declaration": { "envelopes": [
+  { "name": "R", "rows": 2, "is_target": true, "columns": [
+  {"name":"a","start_pos":2,"length":6,"line_index":1}, {"name":"b","start_pos":8,"length":5,"line_index":1}, {"name":"c","start_pos":2,"length":6,"line_index":2} ] } ] }, ` +
+				`"transform_declarations": { "FINAL_OUTPUT": { "object": { "a": { "xpath": "a" }, "b": { "xpath": "b", "type": "int" }, "c": { "xpath": "c", "keep_empty_or_null": true } } } }}`
+			out = append(out, Variant{Name: "fixedlength2+rows2", FmtIdx: i, Schema: rows2, Gen: f.Gen})
 		case "edi":
 			rel := strings.Replace(f.Schema, `"ignore_crlf": true,`, `"ignore_crlf": true, "release_character": "?",`, 1)
 			out = append(out, Variant{Name: "edi+release", FmtIdx: i, Schema: rel,
